@@ -401,6 +401,11 @@ fn contents(max_lines: usize) -> Vec<Vec<u8>> {
         out.push(near.to_vec());
         out.push([near, b"$NetBSD$\n", near].concat());
     }
+    // marker lines that are not UTF-8
+    for bad in [&b"$NetBSD: patch-aa,v 1.1 caf\xe9 $\n"[..], b"\xff $NetBSD$\n", b"\x80$NetBSD\n"] {
+        out.push([b"a\n".as_slice(), bad, b"b\n"].concat());
+        out.push([bad, b"kept \xe9\n"].concat());
+    }
     // scale: files larger than any plausible read buffer
     for len in [4095usize, 4096, 4097, 65_535, 65_536, 65_537, 1_048_577] {
         let mut c: Vec<u8> = (0..len).map(|i| ((i * 31 + 7) % 251) as u8).collect();
@@ -504,6 +509,13 @@ fn lookup_model(recorded: &[String], path: &str) -> Option<String> {
         let suffix = comps[comps.len() - k..].join("/");
         if recorded.iter().any(|r| *r == suffix) {
             return Some(suffix);
+        }
+    }
+    // the longest trailing sub-path of an absolute path is the path itself
+    if path.starts_with('/') {
+        let whole = format!("/{}", comps.join("/"));
+        if recorded.iter().any(|r| *r == whole) {
+            return Some(whole);
         }
     }
     None
@@ -699,6 +711,11 @@ fn main() {
                 .filter(|(i, _)| mask >> i & 1 == 1)
                 .map(|(_, n)| if patch && !n.is_empty() { match n.rfind('/') { Some(k) => format!("{}/patch-{}", &n[..k], &n[k + 1..]), None => format!("patch-{}", n) } } else { n.to_string() })
                 .collect();
+            // the subsets without "f" and "d/f" also record a file under its full absolute name (found only as the whole path)
+            let mut rec = rec;
+            if mask % 4 == 0 {
+                rec.push(if patch { format!("{}/x/d/patch-f", root) } else { format!("{}/x/d/f", root) });
+            }
             // both recording orders: the entry found must not depend on which name was recorded first
             let mut rev = rec.clone();
             rev.reverse();
